@@ -39,6 +39,12 @@ func genC11l(t *rapid.T) c11lCase {
 	c.Stack.Strategy = rapid.SampledFrom([]string{"simple", "precise"}).Draw(t, "strategy")
 	c.Stack.Backlog = rapid.IntRange(4, 16).Draw(t, "backlog")
 	c.Stack.TimeoutMs = 0 // "no timeout configured"
+	if rapid.IntRange(0, 2).Draw(t, "noBacklog") == 0 {
+		// ... and no backlog bound configured either (zero / negative: "use the library's default", value not assumed:
+		// an arrival refused on the spot is simply not in line). Every argument is then at its default - what a
+		// caller gets who only wants "the FIFO one" or "the LIFO one".
+		c.Stack.Backlog = rapid.SampledFrom([]int{0, 0, -1, -100}).Draw(t, "unsetBacklog")
+	}
 	if rapid.IntRange(0, 3).Draw(t, "negTimeout") == 0 && (c.Stack.Kind == "pool" || c.Stack.Kind == "fixedpool") {
 		c.Stack.TimeoutNs = -int64(rapid.IntRange(1, 1000).Draw(t, "neg")) // pools: negative also means "not set"
 	}
